@@ -174,7 +174,7 @@ def play(ctx, rng, fam, seq, peer, box, label):
                 if getattr(ex, "errcode", None) not in statuses:
                     ctx.violate("TransportError-with-a-status-never-sent-to-this-call", ccase,
                                 {"errcode": getattr(ex, "errcode", None), "own_statuses": statuses, "calls": calls})
-                elif fam == "tcp" and str(ex.url) != "127.0.0.1:%d/rpc" % peer.port:
+                elif fam == "tcp" and not ("127.0.0.1:%d" % peer.port in str(ex.url) and "/rpc" in str(ex.url)):
                     ctx.violate("TransportError-without-the-url", ccase, {"url": getattr(ex, "url", None)})
             elif prev_ok and last[0] in ("S", "N", "B"):
                 # clean connection, this call's own (last) exchange was a non-200 reply
